@@ -891,3 +891,45 @@ def run_linked_linear(ctx: Ctx) -> None:
                     why = agree("after data_(new) on the counterpart")
                     return (not why), why
                 _guard(ctx, "T6x.linked-linear", f"{name}:D={D}:{kind}", fL, f"class={name} D={D} params={kind} link_(other)", th)
+
+
+def run_point_vs_grid_route(ctx: Ctx) -> None:
+    """Non-rigid models: the point route (field sampled at the points) and the grid route (field resized to the lattice) are one mapping."""
+    from .t6_transforms import TEnv
+    prog = ctx.prog
+    fS = prog.func("deepali.core.flow", "sample_flow")
+    ctx.fn(fS)
+    ctx.fn(prog.func("deepali.core.flow", "warp_points"))
+    ctx.fn(prog.func("deepali.core.flow", "warp_grid"))
+    ctx.rule("T67.point-vs-grid", "for a dense displacement model with symbolic vectors and either align_corners: at the transform's own lattice "
+                                  "t(x) (field sampled at the points) and t(x, grid=True) (field resized to the lattice) both add exactly the "
+                                  "stored vectors; a constant field c maps every point of a twice as fine lattice of the same domain — which "
+                                  "includes points beyond the outermost samples of the field, where only the padding rule decides — to x + c "
+                                  "(the resized-field route on another lattice is torch's interpolate and stays uninterpreted)")
+    mod, cls, kw = NONRIGID[0]
+    for ac in (False, True):
+        def th(ac=ac):
+            env = TEnv(ctx, 2)
+            it = env.it
+            size = (3, 4)
+            g = it.new(env.Grid, size=size, align_corners=ac)
+            env.grid = g
+            t = env.make(mod, cls, kw, "buffer")
+            it.method(t, "update")
+            u = it.method(t, "tensor")
+            own = it.method(g, "coords").unsqueeze(0)
+            want_own = own.add(u.permute([0, 2, 3, 1]))
+            for route in (False, True):
+                if not teq(it.call_value(t, [own], {"grid": route}), want_own):
+                    return False, f"at its own lattice t(x, grid={route}) is not x + u"
+            fine = it.method(g, "resize", tuple(2 * n - 1 for n in size) if ac else tuple(2 * n for n in size))
+            x = it.method(fine, "coords").unsqueeze(0)
+            c = [Rat.atom("k0"), Rat.atom("k1")]
+            const = STensor.from_flat([c[ch] for ch in range(2) for _ in range(size[0] * size[1])], [1, 2, size[1], size[0]])
+            it.method(t, "data_", const)
+            y = it.call_value(t, [x], {})
+            want = x.add(STensor.from_flat(c, [2]))
+            if not teq(y, want):
+                return False, f"align_corners={ac}: a constant field c does not map every point of the domain to x + c"
+            return True, ""
+        _guard(ctx, "T67.point-vs-grid", f"align_corners={ac}", fS, f"class={cls} align_corners={ac} point route vs grid route", th)
